@@ -162,6 +162,11 @@ def probedKind : Kind → Bool
   | .raw | .nodeOk | .nodeNo | .nodeEmpty => true
   | _ => false
 
+def probedAt (kinds : List Kind) (i : Nat) : Bool :=
+  match kinds[i]? with
+  | some k => probedKind k
+  | none => false
+
 /-- the monitor at the start of a case, from the observation of the start-up probe: a
 NodeService-kind service with an "ok" listener declared its support when it was asked; the
 controller must host — and therefore probe — every configured service it can resolve -/
@@ -170,7 +175,7 @@ def Mon.reset (kinds : List Kind) (ob : Obs) (inline : Option Bool := none) : Mo
     kinds[i]? == some Kind.nodeOk && ob.sent.contains (i, SCmd.queryretire)
   let unres := (List.range kinds.length).filter fun i => !reachableAt kinds i
   let probed := (List.range kinds.length).all fun i =>
-    !(match kinds[i]? with | some k => probedKind k | none => false) || ob.sent.contains (i, SCmd.queryretire)
+    !probedAt kinds i || ob.sent.contains (i, SCmd.queryretire)
   let r := (Mon.init kinds.length declared inline unres).step .tick ob
   (r.1, if probed then r.2 else some "C12/hosted-service-not-probed")
 
